@@ -3,6 +3,14 @@
 #include "problem.hpp"
 #include "Residual/ResidualGive/residualGive.h"
 #include "Residual/ResidualTake/residualTake.h"
+#include "DirectSolver/DirectSolverGiveCustomLU/directSolverGiveCustomLU.h"
+#include "DirectSolver/DirectSolverTakeCustomLU/directSolverTakeCustomLU.h"
+
+// friend accessor (GMGPOLAR_VERIF hook): the assembled coarse matrices
+struct GMGPolarVerif {
+    static const SparseMatrixCSR<double>& matrix(const DirectSolverGiveCustomLU& d) { return d.solver_matrix_; }
+    static const SparseMatrixCSR<double>& matrix(const DirectSolverTakeCustomLU& d) { return d.solver_matrix_; }
+};
 
 static int pick_nr(Rng& rng, int max_nr) { static const std::vector<int> s = {5, 7, 9, 11, 13, 17, 21, 25, 33, 65}; int v; do v = rng.pick(s); while (v > max_nr); return v; }
 static int pick_nt(Rng& rng, int max_nt) { static const std::vector<int> s = {4, 8, 12, 16, 24, 32, 64, 128}; int v; do v = rng.pick(s); while (v > max_nt); return v; }
@@ -104,6 +112,118 @@ static int mode_transfer(int cases, int max_nr, int max_nt)
     return 0;
 }
 
+// ---------------------------------------------------------------------------------------------- smoothers
+// one sweep of SmootherGive/Take (extrapolated = false) or ExtrapolatedSmootherGive/Take on a harness-built level
+static int mode_smooth(int cases, int max_nr, int max_nt, bool extrapolated)
+{
+    Rng rng(seed_from_env());
+    for (int c = 0; c < cases; c++) {
+        int nr = pick_nr(rng, max_nr), nt = pick_nt(rng, max_nt);
+        if (nt % 4 != 0) nt = 8;
+        if (extrapolated && nr < 7) nr = 7;
+        Problem p = make_problem(rng, nr, nt);
+        // explicit splits give both parities of the number of circles; keep >= 2 (3) circles and >= 3 radial nodes
+        std::optional<double> split = std::nullopt;
+        if (rng.coin(0.6)) { int lo = extrapolated ? 3 : 2; int nc = rng.range(lo, nr - 3); if (nc >= lo) split = 0.5 * (p.radii[nc - 1] + p.radii[nc]); }
+        Chain ch = make_chain(p, 1, true, true, split);
+        Level& L = *ch.levels[0];
+        const PolarGrid& g = L.grid();
+        if (g.numberSmootherCircles() < (extrapolated ? 3 : 2) || g.lengthSmootherRadial() < 3) continue;
+        emit_level("LV", p, g, p.dirbc);
+        int N = g.numberOfNodes();
+        std::vector<double> x = random_field(rng, N), f = random_field(rng, N);
+        for (int strat = 0; strat < 2; strat++)
+            for (int threads : {1, 4}) {
+                auto method = strat == 0 ? StencilDistributionMethod::CPU_GIVE : StencilDistributionMethod::CPU_TAKE;
+                Vector<double> xv = from_rowmajor(g, x), fv = from_rowmajor(g, f), tmp(N);
+                for (int i = 0; i < N; i++) tmp[i] = rng.uniform(-1e3, 1e3); // scratch holds garbage
+                if (!extrapolated) { L.initializeSmoothing(*p.geo, *p.coef, p.dirbc, threads, method); L.smoothing(xv, fv, tmp); }
+                else { L.initializeExtrapolatedSmoothing(*p.geo, *p.coef, p.dirbc, threads, method); L.extrapolatedSmoothing(xv, fv, tmp); }
+                printf("SM ex=%d strat=%s threads=%d x=%s f=%s out=%s\n", (int)extrapolated, strat == 0 ? "give" : "take", threads, hexvec(x).c_str(), hexvec(f).c_str(),
+                       hexvec(to_rowmajor(g, xv)).c_str());
+            }
+    }
+    printf("end\n");
+    return 0;
+}
+
+// ---------------------------------------------------------------------------------------------- matrix / direct
+static std::string csr_dump(const PolarGrid& g, const SparseMatrixCSR<double>& A)
+{
+    // entries as (row node i,j ; col node i,j ; value) in row-major node coordinates
+    std::string s;
+    char buf[96];
+    for (int r = 0; r < A.rows(); r++) {
+        int ri, rj; g.multiIndex(r, ri, rj);
+        for (int k = 0; k < A.row_nz_size(r); k++) {
+            int cidx = A.row_nz_index(r, k), ci, cj;
+            g.multiIndex(cidx, ci, cj);
+            snprintf(buf, sizeof buf, "%d:%d:%s", ri * g.ntheta() + rj, ci * g.ntheta() + cj, hex(A.row_nz_entry(r, k)).c_str());
+            if (!s.empty()) s += ',';
+            s += buf;
+        }
+    }
+    return s;
+}
+static int mode_direct(int cases, int max_nr, int max_nt)
+{
+    Rng rng(seed_from_env());
+    for (int c = 0; c < cases; c++) {
+        int nr = pick_nr(rng, max_nr), nt = pick_nt(rng, max_nt);
+        Problem p = make_problem(rng, nr, nt);
+        std::optional<double> split = rng.coin(0.3) ? std::optional<double>(rng.uniform(p.R0, p.Rmax)) : std::nullopt;
+        Chain ch = make_chain(p, 1, true, true, split);
+        const PolarGrid& g = ch.levels[0]->grid();
+        emit_level("LV", p, g, p.dirbc);
+        int N = g.numberOfNodes();
+        for (int strat = 0; strat < 2; strat++)
+            for (int threads : {1, 4}) {
+                std::vector<double> b(N);
+                int kind = rng.range(0, 2);
+                for (auto& v : b) v = kind == 0 ? rng.uniform(-1, 1) : std::ldexp(rng.uniform(-1, 1), rng.range(-40, 40)); // huge dynamic range
+                Vector<double> bv = from_rowmajor(g, b);
+                std::string mat;
+                if (strat == 0) { DirectSolverGiveCustomLU d(g, ch.levels[0]->levelCache(), *p.geo, *p.coef, p.dirbc, threads); d.solveInPlace(bv); if (threads == 1 && N <= 200) mat = csr_dump(g, GMGPolarVerif::matrix(d)); }
+                else { DirectSolverTakeCustomLU d(g, ch.levels[0]->levelCache(), *p.geo, *p.coef, p.dirbc, threads); d.solveInPlace(bv); if (threads == 1 && N <= 200) mat = csr_dump(g, GMGPolarVerif::matrix(d)); }
+                printf("DS strat=%s threads=%d b=%s x=%s mat=%s\n", strat == 0 ? "give" : "take", threads, hexvec(b).c_str(), hexvec(to_rowmajor(g, bv)).c_str(), mat.empty() ? "-" : mat.c_str());
+            }
+    }
+    printf("end\n");
+    return 0;
+}
+// the operator as a matrix, read off the residual with one-hot vectors (f = 0): column k of A is -(residual of e_k)
+static int mode_matrix(int cases, int max_nr, int max_nt)
+{
+    Rng rng(seed_from_env());
+    for (int c = 0; c < cases; c++) {
+        int nr = pick_nr(rng, max_nr), nt = pick_nt(rng, max_nt);
+        Problem p = make_problem(rng, nr, nt);
+        Chain ch = make_chain(p, 1, true, true);
+        const PolarGrid& g = ch.levels[0]->grid();
+        emit_level("LV", p, g, p.dirbc);
+        int N = g.numberOfNodes();
+        for (int strat = 0; strat < 2; strat++) {
+            std::string cols;
+            Vector<double> zero(N), e(N), out(N);
+            for (int i = 0; i < N; i++) zero[i] = 0.0;
+            for (int k = 0; k < N; k++) {
+                int ki = k / g.ntheta(), kj = k % g.ntheta();
+                for (int i = 0; i < N; i++) e[i] = 0.0;
+                e[g.index(ki, kj)] = 1.0;
+                if (strat == 0) { ResidualGive R(g, ch.levels[0]->levelCache(), *p.geo, *p.coef, p.dirbc, 1); R.computeResidual(out, zero, e); }
+                else { ResidualTake R(g, ch.levels[0]->levelCache(), *p.geo, *p.coef, p.dirbc, 1); R.computeResidual(out, zero, e); }
+                std::vector<double> col = to_rowmajor(g, out);
+                for (auto& v : col) v = -v;
+                if (k) cols += ';';
+                cols += hexvec(col);
+            }
+            printf("MAT strat=%s cols=%s\n", strat == 0 ? "give" : "take", cols.c_str());
+        }
+    }
+    printf("end\n");
+    return 0;
+}
+
 int main(int argc, char** argv)
 {
     std::string mode = argc > 1 ? argv[1] : "";
@@ -111,6 +231,10 @@ int main(int argc, char** argv)
     int a = argc > 2 ? atoi(argv[2]) : 20, b = argc > 3 ? atoi(argv[3]) : 17, c = argc > 4 ? atoi(argv[4]) : 32;
     if (mode == "residual") return mode_residual(a, b, c);
     if (mode == "transfer") return mode_transfer(a, b, c);
+    if (mode == "smooth") return mode_smooth(a, b, c, false);
+    if (mode == "exsmooth") return mode_smooth(a, b, c, true);
+    if (mode == "direct") return mode_direct(a, b, c);
+    if (mode == "matrix") return mode_matrix(a, b, c);
     fprintf(stderr, "usage: h_ops residual ...\n");
     return 2;
 }
